@@ -22,14 +22,15 @@ import vlib
 PID = "C21"
 META = {
     "cat": "fault_enumeration",
-    "text": "Every event index of a worker process is used as a crash point (the hooks are fault points, including the three write() calls of "
+    "text": "TLC checks on RunMC.tla that a worker dying at any step is contained (invariant Contained) and that the run terminates "
+            "(liveness Terminates under weak fairness). Every event index of a worker process is used as a crash point (the hooks are fault points, including the three write() calls of "
             "one pipe frame) with several ways of dying; TLC evaluates termination, crash report, integrity of the other files' findings and "
             "the exit status on every faulted run against the fault-free run, and the event traces of the faulted runs are validated against "
             "Run.tla's process-executor actions.",
     "ref": "DESIGN.md section 4 C21",
     "note": "A wall-clock timeout of 60 s turns a hang into a violation. Crash points are the hook events of the worker (every critical section "
             "and every pipe write), not every machine instruction. Trusted: hooks, template output parsing, TLC.",
-    "technique": "fault enumeration over all hook crash points, TLC-judged obligations (Contain.tla) + trace validation against Run.tla",
+    "technique": "TLC model check incl. liveness (RunMC.tla) + fault enumeration over all hook crash points, TLC-judged obligations (Contain.tla) + trace validation against Run.tla",
 }
 
 FILES = {
@@ -93,9 +94,31 @@ def classify(b, points):
     return "%s@%s" % ("+".join(b["reasons"]), kind)
 
 
+def model_check(tier):
+    """RunMC.tla with a worker of f2 that may die at ANY step: Contained (crash reported, others intact, exit status) as
+    invariants and Terminates as liveness property under weak fairness (no state constraint)."""
+    states = 0
+    samples = []
+    for sc, nj in ([(1, 2), (4, 2)] if tier == "quick" else [(1, 2), (4, 2), (3, 2), (4, 3)]):
+        work = vlib.mktmp("c21mc")
+        cfg = os.path.join(work, "RunMC.cfg")
+        with open(cfg, "w") as f:
+            f.write('SPECIFICATION FairSpec\nCONSTANTS\n  PMode = "process"\n  NJobs = %d\n  Scenario = %d\n  ExitCode = 1\n  EmitDup = FALSE\n'
+                    '  Bug = "none"\n  Crash = TRUE\nINVARIANT Contained\nINVARIANT Invs\nPROPERTY Terminates\nCHECK_DEADLOCK TRUE\n' % (nj, sc))
+        r = vlib.tlc("RunMC", cfg, workers=min(6, vlib.NCPU), timeout=2400, deadlock=True, xmx="12g")
+        if r.error:
+            raise vlib.InfraError("RunMC (crash) model failure sc=%s\n%s" % (sc, r.out[-2500:]))
+        if r.violation:
+            return None, {"scenario": sc, "jobs": nj, "violated": r.violated_name(), "tlc": r.out[-4000:]}
+        states += r.distinct
+        samples.append({"model": "RunMC crash", "scenario": sc, "jobs": nj, "distinct": r.distinct, "liveness": "Terminates holds"})
+    return (states, samples), None
+
+
 def main(tier, seed, replay=None):
     t0 = time.time()
     vlib.build()
+    mc, mcviol = ((0, []), None) if replay else model_check(tier)
     root = runlayer.fresh_root("c21")
     projgen.materialize({"files": FILES}, root)
     ref = run(root, 2)
@@ -153,6 +176,10 @@ def main(tier, seed, replay=None):
     step = max(1, len(tr_runs) // (60 if tier == "quick" else 400))
     tres = runtrace.validate([(ref["label"], ref["hdr"], ref["events"])] + tr_runs[::step], keep_dir=os.path.join(vlib.OUT, "replays", PID))
     violations = []
+    if mcviol:
+        p = vlib.save_replay(PID, "model-sc%d" % mcviol["scenario"], mcviol)
+        violations.append({"key": "model:%s" % mcviol["violated"], "what": "RunMC with dying workers violates %s" % mcviol["violated"], "replay": p})
+        mc = (0, [])
     for b in bad:
         f = b["fault"]
         p = vlib.save_replay(PID, "fault-%s-%d-%s-j%d" % (f["file"], f["k"], f["how"], f["jobs"]), {"fault": {k: f[k] for k in ("file", "k", "how")}, "jobs": f["jobs"], "judgement": b})
@@ -176,7 +203,7 @@ def main(tier, seed, replay=None):
            "rule": "one run per (file, event index of its worker, way of dying, job count); non-trivial = the fault point was reached and the worker died",
            "exhaustive": True, "crash_point_kinds": kinds, "events_per_worker": nev,
            "traces_validated_against_impl": tres.validated, "trace_rejected": len(tres.rejected), "bad": len(bad),
-           "samples": observations[:2] + observations[-1:]}
+           "states": mc[0], "samples": mc[1] + observations[:2] + observations[-1:]}
     vlib.write_evidence(PID, tier, seed, "fault_enumeration", cov, time.time() - t0, violations=new,
                         assumptions=["crash points = hook events of the worker process (every critical section and each of the three writes of a pipe frame)"])
     return rc
